@@ -103,3 +103,8 @@ def run(P: Program, rep: Report):
     for ctx, v in explore(separate, 5):
         ok = isinstance(v, list) and isinstance(v[0], AList) and v[0].items == ["Ann A", "{B and C}", "D"] and v[1] == "x and y"
         rep.check(ok, "C12.R3", "separate-name-fields-only", sc.loc, f"SeparateCoAuthors yields {v!r}")
+
+    rep.rule("C12.R9", "no unsafe memoisation in the modules this property rests on: a function decorated with lru_cache / cache / "
+                      "cached_property neither takes nor returns a mutable object (else later calls see stale or shared results)")
+    from . import common as _common
+    _common.no_unsafe_memoisation(P, rep, "C12.R9", ['middlewares.names'])
